@@ -52,6 +52,8 @@ def gen_task(g, prop, name, svc, allow_ramp, big=False):
         t["op"] = "real" if g.coin(0.5) else g.pick(["sim-op", "sim-op", "raw-request"])
     else:
         t["op"] = "composite" if prop == "C18" else g.pick(["sim-op", "sim-op", "raw-request"])
+        if prop == "C04" and g.coin(0.15):
+            t["op"] = "real"  # one of Rally's own runners (several HTTP requests per logical request)
     ms = mean_service(svc)
     loop = g.weighted([5, 4, 2])
     if prop == "C05" and g.coin(0.1):
@@ -639,7 +641,8 @@ class LoadgenHarness(Harness):
                         req = {"kind": "plain", "k": k, "paths": paths}
                     reqs.append(req)
                 if prop in ("C04", "C05"):
-                    check_timings(prop, cfg, t, ci, client, h, ys, samples, reqs, tr, wires, proc, tol, bad, probes, plan)
+                    recs = [r for r in sim.trace.requests if session_client.get(r["session"]) == client] if t["op"] == "real" else None
+                    check_timings(prop, cfg, t, ci, client, h, ys, samples, reqs, tr, wires, proc, tol, bad, probes, plan, recs=recs, marks=sim.sample_marks, log=simes.log)
                 if prop == "C18":
                     recs = [r for r in sim.trace.requests if session_client.get(r["session"]) == client]
                     check_contexts(cfg, t, client, samples, reqs, tr, wires, proc, tol, bad, probes, leaves.get(t["name"]), ys=ys, recs=recs, marks=sim.sample_marks)
@@ -878,7 +881,26 @@ def span_of(client, paths, k_of_path, tr, wires):
     return s[1], e[1], s[0], e[0], ws
 
 
-def check_timings(prop, cfg, t, ci, client, h, ys, samples, reqs, tr, wires, proc, tol, bad, probes, plan):
+def span_real(client, k, ys, recs, marks, s, log):
+    """like span_of, for a runner of Rally's own: the HTTP requests the client started in this turn of the schedule"""
+    lo_idx = ys[k][4]
+    hi_idx = ys[k + 1][4] if k + 1 < len(ys) else float("inf")
+    final_idx = marks.get(id(s), float("inf"))
+    mine = [r for r in recs if lo_idx <= r["start_idx"] < hi_idx]
+    done = [(r["start"], max((e for e in r["ends"] if e[2] < final_idx), key=lambda e: e[1])) for r in mine if any(e[2] < final_idx for e in r["ends"])]
+    if not done or len(done) != len(mine):
+        return None
+    a = min((st for st, _ in done), key=lambda st: st[1])
+    b = max((en for _, en in done), key=lambda en: en[1])
+    # without faults every HTTP request the hooks saw is one request the cluster saw, in the same order
+    cw = [w for w in log if w.client_id == client]
+    if len(cw) != len(recs):
+        return None
+    ws = [cw[i] for i, r in enumerate(recs) if lo_idx <= r["start_idx"] < hi_idx]
+    return a[1], b[1], a[0], b[0], ws
+
+
+def check_timings(prop, cfg, t, ci, client, h, ys, samples, reqs, tr, wires, proc, tol, bad, probes, plan, recs=None, marks=None, log=None):
     if prop != "C04":
         return
     ctx0 = f"task {t['name']} client {client}"
@@ -887,7 +909,9 @@ def check_timings(prop, cfg, t, ci, client, h, ys, samples, reqs, tr, wires, pro
     for k, s in enumerate(samples):
         ctx = f"{ctx0} request {k}"
         req = reqs[k]
-        sp = span_of(client, req["paths"], k, tr, wires)
+        sp = span_real(client, k, ys, recs or [], marks or {}, s, log or []) if req["kind"] == "real" else span_of(client, req["paths"], k, tr, wires)
+        if req["kind"] == "real" and sp is not None and len(sp[4]) > 1:
+            probes["real_runner_multi_request"] = 1
         cpu_pre = (plan.get("cpu_pre") or [0])[k % len(plan.get("cpu_pre") or [0])] if t["op"] == "sim-op" else 0
         cpu_post = (plan.get("cpu_post") or [0])[k % len(plan.get("cpu_post") or [0])] if t["op"] == "sim-op" else 0
         if s.service_time < 0:
